@@ -2,6 +2,8 @@
 //! exit 0 = held (or only known findings), 1 = violation, 2 = cannot decide.
 use gvlib::ctx::*;
 use gvlib::container;
+use gvlib::contmap;
+use gvlib::drops;
 use gvlib::hist;
 use gvlib::searchrun;
 use serde_json::Value;
@@ -25,6 +27,8 @@ fn run_property(prop: &str, ctx: &mut Ctx) {
         "C10" => searchrun::run("C10", ctx),
         "C11" => container::run_c11(ctx),
         "C12" => container::run_c12(ctx),
+        "C18" => contmap::run(ctx),
+        "C19" => drops::run(ctx),
         _ => {
             eprintln!("unknown property {}", prop);
             std::process::exit(2)
@@ -41,6 +45,8 @@ fn replay_case(prop: &str, v: &Value, st: &mut Stats) -> Result<(), String> {
         "C04" | "C05" | "C06" | "C07" | "C08" | "C09" | "C10" => searchrun::replay(prop, case, st),
         "C11" => container::replay_c11(case, st),
         "C12" => container::replay_c12(case, st),
+        "C18" => contmap::replay(case, st),
+        "C19" => drops::replay(case, st),
         _ => Err(format!("no replay for {}", prop)),
     }
 }
